@@ -515,6 +515,11 @@ class Sym:
         return not self._decide_zero()
 
     def __abs__(self):
+        im = normalize(self.imag)
+        if im.t:
+            # complex modulus sqrt(re^2 + im^2) (exact root when the radicand is a square of positive atoms)
+            re = normalize(self.real)
+            return sym_sqrt(re * re + im * im)
         s = sign_of(self)
         if s is None:
             raise Undecided("abs of a symbolic value of unknown sign")
